@@ -174,6 +174,33 @@ func c19Debug(src string, lines []int, funcs []string, reqs []c19Req, timeout ti
 		res.End = "compile-error:" + firstLine(err.Error())
 		return res
 	}
+	return c19DebugOn(i, prog, &out, lines, funcs, reqs, timeout)
+}
+
+// c19Chain runs several debug sessions one after the other on ONE interpreter and one compiled
+// program (Debug is called once per session). A session that does not finish ends the chain: the
+// sessions after it are reported as not finished either.
+func c19Chain(src string, specs []c19SessSpec, timeout time.Duration) []c19Session {
+	res := make([]c19Session, len(specs))
+	var out, errb bytes.Buffer
+	i := c19NewInterp(&out, &errb)
+	prog, err := i.Compile(src)
+	for k, sp := range specs {
+		switch {
+		case err != nil:
+			res[k].End = "compile-error:" + firstLine(err.Error())
+		case k > 0 && res[k-1].Hang != "":
+			res[k].Hang = "an earlier session on this interpreter did not finish"
+		default:
+			res[k] = c19DebugOn(i, prog, &out, sp.Lines, sp.Funcs, sp.Reqs, timeout)
+		}
+	}
+	return res
+}
+
+// c19DebugOn runs one debug session of prog on the interpreter i, whose standard output is out.
+func c19DebugOn(i *interp.Interpreter, prog *interp.Program, out *bytes.Buffer, lines []int, funcs []string, reqs []c19Req, timeout time.Duration) (res c19Session) {
+	out.Reset()
 	ctx, cancel := context.WithTimeout(context.Background(), timeout+5*time.Second)
 	defer cancel()
 	evch := make(chan c19Event, 1<<16)
